@@ -101,6 +101,15 @@ OKERR = "okerr"      # ok vs err vs panic
 NONE = "none"        # recorded, not gating
 
 
+class HarnessRejected(RuntimeError):
+    """the harness could not even parse a request built from values the code itself produced / the field defines:
+    the correspondence is broken at the input boundary (e.g. a decoder that now rejects valid encodings)"""
+
+    def __init__(self, req, raw):
+        RuntimeError.__init__(self, "harness rejected request: %s -> %s" % (req[:300], raw))
+        self.req, self.raw = req, raw
+
+
 class Session:
     """Runs requests on the real code, records them for the model comparison."""
 
@@ -129,7 +138,7 @@ class Session:
         self.records.append((req, raw, gate if model else "skip", tag))
         r = Resp(raw)
         if r.kind in ("bad-op", "bad-line", "bad-suite"):
-            raise RuntimeError("harness rejected request: %s -> %s" % (req[:300], raw))
+            raise HarnessRejected(req, raw)
         return r
 
     def count(self, key, n=1):
